@@ -64,7 +64,6 @@ let show_out (o : out) : string = match o with
 
 let show_shape = function
   | None -> "none"
-  | Some ShPrevAtBefore -> "prev-at-before" | Some ShNextAtAfter -> "next-at-after"
   | Some ShBatchRange -> "batch-range" | Some ShNonIndexedRead -> "non-indexed-read"
   | Some ShBadHandle -> "bad-handle"
 
